@@ -116,10 +116,27 @@ void mt_lib_start(mt_case * c, mt_engine_cfg * e, size_t def_stack) {
   if (c->gen < 1) cr_b8 = cr_b9 = 0;
   if (((cr_b8 >> 5) & 7) >= 4) mt_desc("created threads carry %d bytes of custom data (work-stealing hint) in their attribute\n", (int[]){ 12, 28, 256, 8 }[((cr_b8 >> 5) & 7) - 4]);
   if ((cr_b8 & 1) || (cr_b9 & 7) >= 3) { mt_desc("thread creation: %s%s\n", (cr_b8 & 1) ? "flavours rotate (NULL attribute, attribute object, parent-first, parent-first + 70000-byte stack, 70000-byte stack)" : "NULL attribute", (const char *[]){ "", "", "", "; created threads run with cancellation disabled and a request pending", "; every other created thread runs with cancellation disabled", "; created threads run with cancellation disabled", "; every other created thread has a deferred cancellation request pending", "; every created thread has a deferred cancellation request pending" }[cr_b9 & 7]); mt_hash_u(((uint64_t)cr_b8 << 8) | cr_b9); }
+  if (c->gen >= 1 && c->cfg.n > 10 && (c->cfg.p[10] & 7) >= 5 && e->mode == MV_CONTROLLED) mt_desc("run-queue windows preset %u slots from the %s of the storage\n", (c->cfg.p[10] >> 3) % 24, (c->cfg.p[10] & 7) == 5 ? "upper end" : (c->cfg.p[10] & 7) == 6 ? "lower end" : "upper / lower end (alternating workers)");
   int prelude = mt_allow_prelude && c->gen >= 1 && c->cfg.n >= 8 && (c->cfg.p[5] & 8) && (c->cfg.p[5] & 7);
   if (prelude) mt_desc("prelude: %d steps of unrelated library use before the program (kinds %02x, args %02x: detached / detach / join threads, custom stacks, keys)\n", c->cfg.p[5] & 7, c->cfg.p[6], c->cfg.p[7]);
   mt_flush_early();
   mv_enable(&g_cfg);
+  /* run-queue windows start where a long history of pushes and steals (or puts) would have left them: a few slots
+     from the upper or the lower end of the 131072-slot storage, so that the re-centring paths of push / put run
+     inside real programs (all queues are empty and every other worker is parked at this point) */
+  if (c->gen >= 1 && c->cfg.n > 10 && (c->cfg.p[10] & 7) >= 5 && e->mode == MV_CONTROLLED) {
+    unsigned b10 = c->cfg.p[10], d = (b10 >> 3) % 24; int where = (int)(b10 & 7);
+    for (int i = 0; i < g_envs_sz; i++) {
+      myth_thread_queue_t q = &g_envs[i].runnable_q;
+      if (q->top != q->base) continue;
+      int up = where == 5 || (where == 7 && (i & 1));
+      int pos = up ? q->size - (int)d : (int)d;
+      if (pos < 0) pos = 0; if (pos > q->size) pos = q->size;
+      q->top = q->base = pos;
+    }
+    mt_label(where == 5 ? "queue_window_at_upper_end" : where == 6 ? "queue_window_at_lower_end" : "queue_windows_at_both_ends");
+    mt_hash_u(0x51000000u | b10);
+  }
   if (prelude) mt_prelude(c);
 }
 
